@@ -66,8 +66,14 @@ def event_term(ev, sets):
         return "(EvSchedReturn %s)" % n_(ev["id"])
     if t == "save":
         return "EvSave"
+    if t == "restart":
+        return "EvRestart"
     if t == "shutdown":
         return "EvShutdownBegin"
+    if t == "force":
+        return "EvShutdownForce"
+    if t == "shutdown_return":
+        return "EvShutdownReturn"
     raise ValueError("unknown event " + t)
 
 
@@ -95,17 +101,45 @@ def jsnap_term(j):
         "[" + "; ".join(tsnap_term(t) for t in j["tasks"]) + "]", sc, n_(j["cancels"]), cq_bool(j["ctx"]))
 
 
+def ptsnap_term(t):
+    return "(PTSnap %s %s %s %s %s %s %s %s %s %s %s %s)" % (
+        n_(t["name"]), names(t["deps"]), cq_bool(t["allow"]), cq_bool(t["empty"]), n_(t["script"]), STATUS.get(t["status"], "Waiting"),
+        cq_bool(t["start"]), cq_bool(t["end"]), cq_bool(t["skipped"]), cq_z(t["exit"]), cq_bool(t["errored"]), ERR[t["err"]])
+
+
+def pjsnap_term(j):
+    return "(PJSnap %s %s %s %s %s %s %s %s %s [%s])" % (
+        n_(j["id"]), n_(j["pipe"]), cq_bool(j["completed"]), cq_bool(j["canceled"]), cq_bool(j["start"]), cq_bool(j["end"]),
+        vkind(j["vars"], j["vn"]), n_(j["user"]), ERR[j["lasterr"]], "; ".join(ptsnap_term(t) for t in j["tasks"]))
+
+
+def pjob_term(j):
+    """a preloaded job as the model's pjob: created = -age; start/end one resp. two 'seconds' later (only Some/None matters)"""
+    def ts(flag, off):
+        return "(Some (%d)%%Z)" % (-j["age"]) if flag else "None"
+    tasks = "; ".join("(PTask %s %s %s %s %s %s %s %s %s %s %s %s)" % (
+        n_(t["name"]), names(t["deps"]), cq_bool(t["allow"]), cq_bool(t["empty"]), n_(t["script"]), STATUS.get(t["status"], "Waiting"),
+        ts(t["start"], 1), ts(t["end"], 2), cq_bool(t["skipped"]), cq_z(t["exit"]), cq_bool(t["errored"]), ERR[t["err"]]) for t in j["tasks"])
+    return "(PJob %s %s %s %s (%d)%%Z %s %s %s %s %s [%s])" % (
+        n_(j["id"]), n_(j["pipe"]), cq_bool(j["completed"]), cq_bool(j["canceled"]), -j["age"], ts(j["start"], 1), ts(j["end"], 2),
+        vkind(j["vars"], j["vn"]), n_(j["user"]), ERR[j["lasterr"]], tasks)
+
+
 def snap_term(sn):
     wait = "[" + "; ".join("(%s, %s)" % (n_(int(p)), names(ids)) for p, ids in sorted(sn["wait"].items(), key=lambda kv: int(kv[0]))) + "]"
     pipes = "[" + "; ".join("(%s, %s, %s)" % (n_(p["p"]), cq_bool(p["schedulable"]), cq_bool(p["running"])) for p in sn["pipes"]) + "]"
-    return "(Snap [%s] %s %s %s)" % ("; ".join(jsnap_term(j) for j in sn["jobs"]), wait, pipes, cq_bool(sn["req"]))
+    store = "None" if sn.get("store") is None else "(Some [%s])" % "; ".join(pjsnap_term(j) for j in sn["store"])
+    return "(Snap [%s] %s %s %s %s %s)" % ("; ".join(jsnap_term(j) for j in sn["jobs"]), wait, pipes, cq_bool(sn["req"]),
+                                         names(sn.get("logs") or []), store)
 
 
 def history_term(h, key):
     """A Coq term for one history. Definition sets are let-bound as d0..dk."""
     lets = "".join("let d%d : defs := %s in " % (i, defs_term(ds)) for i, ds in enumerate(h["sets"]))
-    steps = ";\n   ".join("(%s, %s, %s)" % (event_term(st["ev"], h["sets"]), res_term(st["res"]), snap_term(st["snap"])) for st in h["steps"])
-    return "(%sHistory %s d0 [\n   %s])" % (lets, n_(key), steps)
+    steps = ";\n   ".join("(%s, %s, %s)" % (event_term(st["ev"], h["sets"]), res_term(st["res"]),
+                                            "None" if st.get("skip") else "(Some %s)" % snap_term(st["snap"])) for st in h["steps"])
+    pre = "[" + "; ".join(pjob_term(j) for j in (h.get("pre") or [])) + "]"
+    return "(%sHistory %s d0 %s [\n   %s])" % (lets, n_(key), pre, steps)
 
 
 def parse_histories(path):
@@ -113,7 +147,7 @@ def parse_histories(path):
     for line in open(path):
         r = json.loads(line)
         if r["kind"] == "begin":
-            cur = {"hid": r["hid"], "seed": r["seed"], "profile": r["profile"], "sets": r["sets"], "steps": [], "failure": ""}
+            cur = {"hid": r["hid"], "seed": r["seed"], "profile": r["profile"], "sets": r["sets"], "pre": r.get("pre") or [], "steps": [], "failure": ""}
         elif r["kind"] == "step":
             cur["steps"].append(r)
         elif r["kind"] == "end":
@@ -133,7 +167,8 @@ def run_sysrun(ctx, bins, profile, seed, n, steps=60, procs=16, extra=()):
     ps = []
     for k in range(procs):
         out = os.path.join(ctx.run, "sys-%s-%d-%d.jsonl" % (profile, seed, k))
-        cmd = [bins["sysrun"], "-seed", str(seed * 1000 + k), "-n", str(per), "-profile", profile, "-out", out, "-steps", str(steps)] + list(extra)
+        cmd = [bins["sysrun"], "-seed", str(seed * 1000 + k), "-n", str(per), "-profile", profile, "-out", out, "-steps", str(steps),
+               "-dir", ctx.run] + list(extra)
         ps.append((k, out, subprocess.Popen(cmd, stdout=subprocess.PIPE, stderr=subprocess.STDOUT, text=True)))
     hs = []
     for k, out, p in ps:
@@ -182,8 +217,9 @@ def model_obs_at(ctx, h, step):
     """For diagnosis: the model's observation after the given step of the history (as printed by Coq)."""
     term = history_term(h, 0)
     src = SYS_HEADER + "Definition h := %s.\n" % term
-    src += ("Definition o := Eval vm_compute in match state_at (init (h_defs h)) %d (h_steps h) with\n"
-            "  | Some (s, Some (s', r)) => Some (r, obs_state s' (map fst (sn_wait (snd (nth %d (h_steps h) (EvTick 0, RNone, Snap [] [] [] false)))))) | _ => None end.\nPrint o.\n") % (step, step)
+    src += ("Definition o := Eval vm_compute in match state_at (h_init h) %d (h_steps h) with\n"
+            "  | Some (s, Some (s', r)) => let sn := default (Snap [] [] [] false [] None) (snd (nth %d (h_steps h) (EvTick 0, RNone, None))) in\n"
+            "       Some (r, diff_where (obs_state s' (map fst (sn_wait sn)) (is_some (sn_store sn))) (norm_snap sn), obs_state s' (map fst (sn_wait sn)) (is_some (sn_store sn))) | _ => None end.\nPrint o.\n") % (step, step)
     path = os.path.join(ctx.run, "diag.v")
     open(path, "w").write(src)
     rc, out = sh(["timeout", "300", "coqc", "-Q", COQ, "PV", "-w", "none", path], cwd=ctx.run)
